@@ -516,6 +516,8 @@ class Spectrum(object):
         if sampling == self.__sampling: return
         self.__sampling = sampling
         self.__df = self.__sampling / float(self.__N)
+        if hasattr(self, '_range'):
+            self._range.sampling = sampling
         self.modified = True
     sampling = property(fget=_getSampling, fset=_setSampling,
         doc="""Getter/Setter to sampling frequency. Updates the :attr:`df` automatically.""")
